@@ -154,6 +154,50 @@ def shortcut_rule(chk, prog, f, q1, q2):
                 chk.record("SHORTCUT.band", site, "shortcut band below 1e-4 rad", verdict="VIOLATION")
                 chk.finding("SHORTCUT.band", MET, f.qname, "tolerance of %s" % stmt_text(s),
                             "the shortcut returns 0 for relative rotation angles up to %.3e rad, inside the property's range [1e-4, pi]" % t_max, line=s.lineno)
+    # SHORTCUT.ineq: a zero shortcut may also be spelled as an inequality against a literal tolerance (`1 - |q1.q2| < tol`, possibly inside a helper).  Every
+    # such comparison met on the way is evaluated at a pair of unit quaternions 1e-4 rad apart - the lower end of the range over which the property promises the
+    # closed form: if the comparison holds there, the shortcut (taken when it holds) answers 0 inside the range.
+    ineqs = []
+
+    def oracle2(c, it):
+        if c.op in ("<", "<=", ">", ">=") and it.func_stack and it.func_stack[-1].module.rel == MET:
+            ineqs.append(c)
+        return oracle(c, it)
+    try:
+        Interp(prog, oracle=oracle2).run(f, [q1.copy(), q2.copy()])
+    except Exception:
+        ineqs = []
+    th = 1e-4
+    a1 = np.array([0.5, 0.5, -0.5, 0.5])
+    ax = np.array([0.36, 0.48, 0.8])
+    dq = np.array([math.cos(th / 2), *(math.sin(th / 2) * ax)])
+    a2 = np.array([a1[0]*dq[0] - a1[1:] @ dq[1:], *(a1[0]*dq[1:] + dq[0]*a1[1:] + np.cross(a1[1:], dq[1:]))])
+    vals = {}
+    for nm, v in zip([str(x) for x in q1], a1):
+        vals[nm] = float(v)
+    for nm, v in zip([str(x) for x in q2], a2):
+        vals[nm] = float(v)
+
+    def val(at):
+        return vals[at.name]
+    for c in ineqs:
+        try:
+            l = P.evalf(c.lhs if isinstance(c.lhs, P.Rat) else P._to_rat(c.lhs), val)
+            r = P.evalf(c.rhs if isinstance(c.rhs, P.Rat) else P._to_rat(c.rhs), val)
+        except Exception:
+            continue
+        if not (abs(r) < 1e-3 or abs(l) < 1e-3):
+            continue            # not a tolerance comparison
+        holds = {"<": l < r, "<=": l <= r, ">": l > r, ">=": l >= r}[c.op]
+        site = "%s::%s" % (f.ref, str(c.text)[:60])
+        n += 1
+        if holds and abs(l - r) < 1e-3:
+            why = "the comparison `%s` holds for two attitudes 1e-4 rad apart (%.3g %s %.3g): if a zero shortcut hangs on it, the metric is 0 inside the range [1e-4, pi] " \
+                  "for which the closed form is promised" % (str(c.text)[:60], l, c.op, r)
+            chk.record("SHORTCUT.ineq", site, "tolerance comparison false at 1e-4 rad", verdict="VIOLATION", detail=why)
+            chk.finding("SHORTCUT.ineq", MET, f.qname, "tolerance comparison %s" % str(c.text)[:60], why, line=f.node.lineno)
+        else:
+            chk.record("SHORTCUT.ineq", site, "the tolerance comparison is false for attitudes 1e-4 rad apart")
     if n == 0 and any(isinstance(s, ast.Call) and "allclose" in ast.unparse(s.func) for s in ast.walk(f.node)):
         chk.error("SHORTCUT: allclose present in %s but not reached by the analysis" % f.qname)
 
